@@ -2,7 +2,9 @@
 
 Call histories over keys x versions x timeouts {default, None, 0, negative,
 positive} under the controlled clock, x TIMEOUT / KEY_PREFIX / VERSION / SHARDS,
-against DC.Model.Layers.Django; the BaseCache composites (get_many, set_many,
+against DC.Model.Layers.Django (set/add with tags, get, touch, delete, pop,
+has_key, incr, decr, read, clear, expire, cull, evict, stats,
+get_backend_timeout, make_key); the BaseCache composites (get_many, set_many,
 delete_many, get_or_set, incr_version) are executed for real and judged by the
 acceptor: a dictionary written from the Django cache contract (namespacing by
 prefix and version; None = forever, <= 0 = already expired, default otherwise;
